@@ -62,6 +62,7 @@ def families(facts):
     fams = ["cfg.flags", "regex.ws", "prod.bws"]
     fams += [f"regex.op[{t}]" for t in list(L.KEYWORD_OPERATORS) + ["NOT"]]
     fams += [f"regex.kw[{k}]" for k in KW_LITERAL + list(KW_TOKENS)]
+    fams += [f"regex.wsshadow[{r['name']}]" for r in facts.raw["lexer"]["rules"] if r["name"] != "WS"]
     fams += [f"action[{r['name']}]" for r in facts.raw["lexer"]["rules"] if r.get("action")]
     fams += [f"pyval[{k}]" for k in CASE_KINDS.values()]
     for k in CASE_KINDS.values():
@@ -228,6 +229,21 @@ def run_family(facts, fam, tier):
                 out.append(C06.ares(f"C19:odata_query.grammar.ODataLexer.{what}:regex.opshadow[{ename}]", "regex.opshadow",
                                     g.intersect_witness("CTX", "E"), t1, {"token": what, "earlier": ename, "spec": spec}))
             return out
+        if fam.startswith("regex.wsshadow["):
+            # optional whitespace before an operand: `WS+ token` must be lexed as WS then the token, i.e. no rule tried before WS
+            # matches a prefix of it -- except the keyword operators themselves (` eq ` is the operator, by design)
+            if "WS" not in rule or what not in rule:
+                return [res(f"C19:odata_query.grammar.ODataLexer.{what}:regex.wsshadow", "regex.wsshadow", False, t0, "no such rule")]
+            if names.index(what) > names.index("WS"):
+                return [res(f"C19:odata_query.grammar.ODataLexer.{what}:regex.wsshadow", "regex.wsshadow", True, t0, "tried after WS")]
+            toks = "|".join("(?:" + L.SPEC[k][1] + ")" for k in L.SPEC)
+            delim = "(?:" + L.DELIM_IDENT + ")"
+            ctx = P.parse(ws + "+(?:" + toks + ")(?:" + delim + "[\\s\\S]*)?", 0)
+            kws = "|".join(ci(k) for k in list(L.KEYWORD_OPERATORS.values()))
+            exc = P.parse(ws + "+(?:" + kws + ")" + ws + "[\\s\\S]*", 0)
+            g = A.Group({"CTX": ctx, "E": A.Cat([rule[what], A.anystar()]), "X": exc})
+            w = g.find(["CTX", "E", "X"], lambda f: f[0] and f[1] and not f[2])
+            return [C06.ares(f"C19:odata_query.grammar.ODataLexer.{what}:regex.wsshadow", "regex.wsshadow", w, t0, {"token": what})]
         if fam.startswith("regex.kw["):
             if what in KW_TOKENS:
                 tok, spec = what, ci(KW_TOKENS[what])
@@ -508,6 +524,22 @@ ok = toks is not None and want in types and (len(toks) == (3 if text != w and wa
 print(json.dumps({{'violates': not ok, 'text': text, 'tokens': toks, 'error': err, 'want': want}}))
 """
         return {"native_script": script, "input_text": w, "required": f"the spelling is one {tok} token"}
+    if clause == "regex.wsshadow" and (r.get("witness") or {}).get("text") is not None:
+        w = r["witness"]["text"]
+        script = f"""
+import json
+from odata_query.grammar import ODataLexer
+w = {w!r}
+text = "(" + w
+try:
+    toks = [(t.type, str(t.value)) for t in ODataLexer().tokenize(text)]
+    err = None
+except Exception as ex:
+    toks, err = None, type(ex).__name__
+ok = toks is not None and len(toks) >= 2 and toks[1][0] == "WS"
+print(json.dumps({{'violates': not ok and err is None, 'text': text, 'tokens': toks, 'error': err}}))
+"""
+        return {"native_script": script, "input_text": "(" + w, "required": "optional whitespace before an operand is a WS token"}
     if clause == "prod.bws" and r.get("prod"):
         return bws_replay(r["prod"])
     if clause == "rel.case" and (r.get("witness") or {}).get("kind"):
